@@ -52,7 +52,12 @@ def structural(ctx, rng, count, nsett):
     alls = list(sm.all_settings())
     for k in range(count):
         primal = rng.random() < 0.5
-        inst = sm.gen_instance(rng, primal=primal)
+        if k % 4 == 3:
+            # mixed-sign exponents with a zero row and an orthogonal pair (the cover reduction's precondition fails)
+            inst = sm.gen_instance(rng, primal=primal, m=rng.randint(4, 5), n=rng.randint(2, 3), alpha_style='mixed_zero')
+            inst['X'] = None
+        else:
+            inst = sm.gen_instance(rng, primal=primal)
         setts = alls if nsett >= 32 else [sm.DEFAULTS] + rng.sample(alls, nsett - 1)
         for s in setts:
             for mode in ('override', 'global'):
@@ -88,6 +93,10 @@ def structural(ctx, rng, count, nsett):
             raise common.DriverError(mo['error'])
         ctx.case({'stream': 'structure', 'inst': inst, 'settings': s, 'mode': mode}, nontrivial=len(inst['alpha']) >= 2)
         ctx.count('stream:structure:' + mode)
+        if 'raises' in io and 'zero-size array' in io.get('msg', '') and 'raises' not in mo and not mo['A']:
+            ctx.count('empty-system')          # a constraint that contributes no row at all cannot be compiled on its own
+            ctx.traces_validated += 1
+            continue
         if 'raises' in io or 'raises' in mo:
             if ('raises' in io) != ('raises' in mo):
                 ctx.disagreement('structure', {'inst': inst, 'settings': s, 'mode': mode}, io, mo)
@@ -214,6 +223,50 @@ def audit(ctx, rng, count, nsett):
                                   {'stream': 'audit', 'case': case, 'form': form, 'settings': s}, tags=tags)
 
 
+def targeted(ctx, rng):
+    """failing-input search on the instances where model and implementation disagree: signomials on the same exponents, solved under
+    the disagreeing settings and under the reference settings"""
+    seen = set()
+    for d in ctx.disagreements[:80]:
+        inst, s = d['case']['inst'], d['case']['settings']
+        if inst['X'] is not None:
+            continue
+        key = common.canon_json([inst['alpha'], s, inst['primal']])
+        if key in seen:
+            continue
+        seen.add(key)
+        alpha = [[F(x) for x in r] for r in inst['alpha']]
+        m = len(alpha)
+        form = 'primal' if inst['primal'] else 'dual'
+        base_s = dict(sm.DEFAULTS, heuristic_reduction=False)
+        for t in range(8 + m):
+            if t < m:
+                # one negative term at index t, the others positive (an AGE function if anything is)
+                c = [F(rng.choice([1, 2, 3])) for _ in range(m)]
+                c[t] = F(-1)
+            else:
+                c = [F(rng.choice([-2, -1, 1, 1, 2, 3])) for _ in range(m)]
+                for j, r in enumerate(alpha):
+                    if all(x == 0 for x in r):
+                        c[j] = F(rng.choice([1, 2, 4]))
+            case = {'f': rm.sig_leaf(alpha, c), 'box': None}
+            ref = value_under(case, form, base_s, 'full')
+            got = value_under(case, form, s, 'auto')
+            ctx.count('stream:targeted')
+            if ref[0] != 'solved' or got[0] != 'solved':
+                if got[0].startswith('raised') and ref[0] == 'solved':
+                    ctx.violation('options: building / solving the %s problem under %s raised %s although the reference settings give %.6g'
+                                  % (form, {k: s[k] for k in s if s[k] != sm.DEFAULTS[k]}, got[0][7:], ref[1]),
+                                  {'stream': 'audit', 'case': case, 'form': form, 'settings': s})
+                    return
+                continue
+            if not same(got[1], ref[1]):
+                ctx.violation('options: ordinary SAGE %s value %.8g under %s differs from %.8g under full covers without presolve'
+                              % (form, got[1], {k: s[k] for k in s if s[k] != sm.DEFAULTS[k]}, ref[1]),
+                              {'stream': 'audit', 'case': case, 'form': form, 'settings': s})
+                return
+
+
 def run(ctx):
     rng = ctx.rng
     ctx.lean = common.lean_check('C19')
@@ -237,6 +290,7 @@ def run(ctx):
                         tags = [e['tag']]
                 ctx.violation('options (corpus %s): value %s / %r vs reference %r' % (e['note'][:40], st_, v, ref[1]),
                               {'stream': 'corpus', 'entry': e}, tags=tags)
+    targeted(ctx, rng)
     audit(ctx, rng, 25 if quick else 150, 8 if quick else 32)
     if (not ctx.lean.ok or ctx.disagreements) and not ctx.violations:
         common.broken_report(ctx, 'comparison of solved values across the option lattice found no failing instance')
